@@ -856,6 +856,11 @@ def _handle_attributes(e, position, part):
     for clef in clefs:
         part.add(score.Clef(**clef), position)
 
+    for staff_details in e.findall("staff-details"):
+        number = get_value_from_attribute(staff_details, "number", int) or 1
+        lines = get_value_from_tag(staff_details, "staff-lines", int)
+        part.add(score.Staff(number, lines if lines is not None else 5), position)
+
 
 def get_offset(e):
     offset = e.find("offset")
